@@ -17,6 +17,10 @@ Implementation under test (real code, in-process, under a controlled os.environ)
   workflow variables by %(name)s (and $NAME), in shuffled document orders; driven through all three flavours, the
   flavours compared with each other where the order of the two expansions cannot matter, and a sample of all cases
   is run AGAIN at the end of the process in another order (same answers required).
+  Other histories reaching the same code: a configuration object built for another platform / flavour / set of
+  system variables, used, and re-parametrised in place (`conf.parametrize`, what graphFromPackage does) must answer
+  like a fresh one ("history"); a sample of the cases is served by a child process with another hash seed (the
+  code keeps sibling environments in hash-ordered containers).
 Model: lean/St4sd/Model/Env.lean + Model/C17Vars.lean via drv-c17.  Theorems: lean/St4sd/Props/C17.lean, Witness/C17.lean.
 """
 from __future__ import annotations
@@ -127,9 +131,11 @@ def gen_case(rng, presence=None, name_kind=None, plat=None, interp=None, primiti
         interp = rng.random() < 0.4
     if primitive is None:
         primitive = rng.random() < 0.5
-    return {"platforms": platforms, "platform": plat, "envs": envs, "name": name, "launch": launch, "sys": sysv,
+    case = {"platforms": platforms, "platform": plat, "envs": envs, "name": name, "launch": launch, "sys": sysv,
             "interp": interp, "presence": presence, "name_kind": name_kind, "primitive": primitive,
             "disk": (not primitive) and rng.random() < 0.25}
+    gen_history(rng, case)
+    return case
 
 
 
@@ -276,6 +282,14 @@ def pick_name_vars(rng, world, base):
     return base, "named"
 
 
+def gen_history(rng, world):
+    """an earlier parametrisation of the same configuration object (other platform / flavour / system variables)"""
+    if world.get("disk") or rng.random() > 0.15:
+        return
+    world["history"] = {"platform": rng.choice(world["platforms"]), "primitive": rng.random() < 0.5,
+                        "sys": {"INSTANCE_DIR": "/earlier/instance", "EARLIER_SYSTEM_VAR": "1", "A": "earlier"}}
+
+
 def gen_case_vars(rng, primitive=None, pure=None, plat=None):
     world, base = gen_world_vars(rng, pure, plat)
     name, kind = pick_name_vars(rng, world, base)
@@ -287,6 +301,7 @@ def gen_case_vars(rng, primitive=None, pure=None, plat=None):
     presence = "both" if on_d and on_p else "default" if on_d else "platform" if on_p else "neither"
     world.update(name=name, interp=rng.random() < 0.3, presence=presence, name_kind=kind, primitive=primitive,
                  disk=(not primitive) and rng.random() < 0.25)
+    gen_history(rng, world)
     return world
 
 
@@ -316,9 +331,20 @@ def doc_for(case):
         cmd["interpreter"] = "bash"
     doc = {"components": [{"name": "c", "stage": 0, "command": cmd}],
            "platforms": list(case["platforms"]),
-           "environments": {p: {n: dict(d) for n, d in e.items()} for p, e in case["envs"].items()}}
+           "environments": env_section(case)}
     add_variables(doc, case)
     return doc
+
+
+def env_section(case):
+    """`environments:` of the document; a platform (other than default) that declares no environment is written
+    as an empty mapping or left out of the section (must make no difference)"""
+    out = {}
+    for p, e in case["envs"].items():
+        if not e and p != "default" and (len(case["launch"]) + len(case["sys"])) % 2 == 1:
+            continue
+        out[p] = {n: dict(d) for n, d in e.items()}
+    return out
 
 
 def add_variables(doc, case):
@@ -347,8 +373,9 @@ class built:
     createInstanceFiles (which stores flowir_instance.yaml) and loaded again with is_instance=True (restart path).
     Must be entered inside patched_environ."""
 
-    def __init__(self, doc, platform, sysv, primitive, disk):
+    def __init__(self, doc, platform, sysv, primitive, disk, history=None):
         self.args = (doc, platform, sysv, bool(primitive), bool(disk) and not primitive)
+        self.history = history
         self.tmp = None
 
     def __enter__(self):
@@ -367,9 +394,31 @@ class built:
             conf = C.FlowIRExperimentConfiguration(self.tmp, platform, None, dict(sysv), True, False, False,
                                                    validate=False)
         else:
-            conc = F.FlowIRConcrete(doc, platform, {})
-            conf = C.FlowIRExperimentConfiguration(None, platform, None, dict(sysv), False, False, prim,
-                                                   concrete=conc, validate=False)
+            conf = None
+            if self.history:
+                # another entry point to the same code: a configuration object built for ANOTHER platform / flavour /
+                # set of system variables, used, and then re-parametrised in place (what graphFromPackage does with
+                # the configuration of an ExperimentPackage)
+                h = self.history
+                try:
+                    conc = F.FlowIRConcrete(copy.deepcopy(doc), h["platform"], {})
+                    conf = C.FlowIRExperimentConfiguration(None, h["platform"], None, dict(h["sys"]), False, False,
+                                                           bool(h["primitive"]), concrete=conc, validate=False)
+                    try:
+                        g0 = G.WorkflowGraph(conf, h["platform"], bool(h["primitive"]))
+                        for node in list(g0.graph.nodes):
+                            g0.environmentForNode(node)
+                    except Exception:  # noqa
+                        pass
+                    conf.parametrize(platform=platform, variable_files=None, systemvars=dict(sysv), is_instance=False,
+                                     createInstanceFiles=False, primitive=prim, updateInstanceFiles=False,
+                                     validate=False)
+                except Exception:  # noqa
+                    conf = None      # the package cannot be configured for the earlier platform: no history then
+            if conf is None:
+                conc = F.FlowIRConcrete(doc, platform, {})
+                conf = C.FlowIRExperimentConfiguration(None, platform, None, dict(sysv), False, False, prim,
+                                                       concrete=conc, validate=False)
         return conf, G.WorkflowGraph(conf, platform, prim)
 
     def __exit__(self, *a):
@@ -387,13 +436,35 @@ def err_kind(exc):
     return "other:" + n
 
 
-def impl(case, withname=None):
+class verbose_logging:
+    """ambient setting a user may change: every logger at DEBUG (records are formatted and dropped)"""
+
+    def __enter__(self):
+        import logging
+        self.root = logging.getLogger()
+        self.saved = (self.root.level, list(self.root.handlers))
+        self.root.handlers = [logging.NullHandler()]
+        self.root.setLevel(1)
+        logging.disable(logging.NOTSET)
+
+    def __exit__(self, *a):
+        import logging
+        self.root.setLevel(self.saved[0])
+        self.root.handlers = self.saved[1]
+        logging.disable(logging.CRITICAL)
+
+
+def impl(case, withname=None, verbose=False):
     import logging
-    logging.disable(logging.CRITICAL)
+    if verbose:
+        with verbose_logging():
+            return impl(case, withname, None)
+    if verbose is False:
+        logging.disable(logging.CRITICAL)
     with patched_environ(case["launch"]):
         try:
             with built(doc_for(case), case["platform"], case["sys"], case.get("primitive", True),
-                       case.get("disk", False)) as (conf, g):
+                       case.get("disk", False), case.get("history")) as (conf, g):
                 if withname is not None:
                     env = conf.environmentWithName(case["name"], expand=withname["expand"],
                                                    remove_defaults_key=withname["remove"])
@@ -703,9 +774,10 @@ def gen_session(rng, primitive=None):
     comps, calls = gen_calls(rng, pick_name)
     if primitive is None:
         primitive = rng.random() < 0.5
-    return {"session": {"platforms": platforms, "platform": plat, "envs": envs, "launch": launch, "sys": sysv,
-                        "primitive": primitive, "disk": (not primitive) and rng.random() < 0.25,
-                        "comps": comps, "calls": calls}}
+    sess = {"platforms": platforms, "platform": plat, "envs": envs, "launch": launch, "sys": sysv,
+            "primitive": primitive, "disk": (not primitive) and rng.random() < 0.25, "comps": comps, "calls": calls}
+    gen_history(rng, sess)
+    return {"session": sess}
 
 
 def gen_calls(rng, pick_name):
@@ -738,6 +810,7 @@ def gen_session_vars(rng, primitive=None):
     if primitive is None:
         primitive = rng.random() < 0.4
     world.update(primitive=primitive, disk=(not primitive) and rng.random() < 0.25, comps=comps, calls=calls)
+    gen_history(rng, world)
     return {"session": world}
 
 
@@ -751,7 +824,7 @@ def session_doc(sess):
             cmd["interpreter"] = "bash"
         comps.append({"name": "c%d" % i, "stage": 0, "command": cmd})
     doc = {"components": comps, "platforms": list(sess["platforms"]),
-           "environments": {p: {n: dict(d) for n, d in e.items()} for p, e in sess["envs"].items()}}
+           "environments": env_section(sess)}
     add_variables(doc, sess)
     return doc
 
@@ -780,7 +853,7 @@ def run_session_impl(sess, calls=None):
     answers = []
     with patched_environ(sess["launch"]):
         b = built(session_doc(sess), sess["platform"], sess["sys"], sess.get("primitive", True),
-                  sess.get("disk", False))
+                  sess.get("disk", False), sess.get("history"))
         try:
             conf, g = b.__enter__()
         except Exception as exc:  # noqa
@@ -917,6 +990,8 @@ def check_sessions(ctx, cases):
         tags += sorted({"mutate:" + c["mutate"] for c in sess["calls"] if c.get("mutate")})
         if "vars" in sess:
             tags.append("session-with-%(name)s-references")
+        if sess.get("history"):
+            tags.append("re-parametrised-configuration-object")
         if not isinstance(answers, dict):
             SEEN_SESSIONS.append((case, answers))
         if isinstance(answers, dict):
@@ -1035,6 +1110,8 @@ def check_cases(ctx, cases):
             tags.append("has-DEFAULTS")
         if "vars" in c:
             tags += vars_tags(c)
+        if c.get("history"):
+            tags.append("re-parametrised-configuration-object")
         ctx.case(c, nontrivial=nontrivial(c), tags=tags)
         SEEN_CASES.append((c, raw))
         why, detail = oracle(c, raw)
@@ -1099,11 +1176,12 @@ def check_again(ctx, rng, n_cases, n_sessions):
     after everything else this process has loaded — the answers must be the ones given the first time"""
     sample = rng.sample(SEEN_CASES, min(n_cases, len(SEEN_CASES)))
     rng.shuffle(sample)
-    for c, first in sample:
-        again = canon_out(impl(c), strip=False)
-        ctx.tag("served-again")
+    for i, (c, first) in enumerate(sample):
+        again = canon_out(impl(c, verbose=(i % 3 == 0)), strip=False)   # every third one with all loggers at DEBUG
+        ctx.tag("served-again" + ("-with-debug-logging" if i % 3 == 0 else ""))
         if again != first:
-            ctx.fail("result-depends-on-earlier-cases", c, {"first": first, "again": again})
+            ctx.fail("result-depends-on-earlier-cases", c, {"first": first, "again": again,
+                                                             "debug_logging": i % 3 == 0})
     sample = rng.sample(SEEN_SESSIONS, min(n_sessions, len(SEEN_SESSIONS)))
     rng.shuffle(sample)
     for case, first in sample:
@@ -1240,8 +1318,11 @@ def run(ctx):
                 "= literals, %(M)s to lower-ranked names (preferring resolvable ones, sometimes names only another "
                 "environment defines, sometimes undefined / replica), $M / ${M}, optional DEFAULTS; each driven as "
                 "primitive / replicated / instance-directory, compared with the other flavour where the order of the "
-                "two expansions cannot matter; a sample of all cases and sessions is served again at the end of the "
-                "process in another order")
+                "two expansions cannot matter; 15% of the in-memory cases and sessions use a configuration object "
+                "that was first built for another platform / flavour / system variables, used, and re-parametrised "
+                "in place; a sample of all cases and sessions is served again at the end of the process in another "
+                "order (every third one with all loggers at DEBUG) and a sample of the cases by a child process with "
+                "another hash seed")
     ctx.assumptions = ["`%` occurs in environment values and global variables only in well-formed %(name)s "
                        "references to plain names (no dotted scopes, no [index] array accesses, no incomplete "
                        "%(name), no names built by other references), the reference graph of every interpolation "
@@ -1265,22 +1346,22 @@ def run(ctx):
             cases.append(gen_case(rng, presence, nk, plat, interp, primitive=(r % 2 == 0)))
     for _ in range(400 if quick else 6000):
         cases.append(gen_case(rng))
-    for i in range(700 if quick else 9000):
+    for i in range(700 if quick else 4000):
         cases.append(gen_case_vars(rng, primitive=(None if i % 3 else False)))
     ctx.exhaustive = False
     ctx.shrinker = shrink_case
     del SEEN_CASES[:], SEEN_SESSIONS[:]
     check_cases(ctx, cases)
     sessions = [copy.deepcopy(c) for c in SESSION_CORPUS]
-    for _ in range(320 if quick else 4000):
+    for _ in range(320 if quick else 2800):
         sessions.append(gen_session(rng))
-    for _ in range(120 if quick else 1500):
+    for _ in range(120 if quick else 600):
         sessions.append(gen_session_vars(rng))
     check_sessions(ctx, sessions)
     check_subst(ctx, [gen_subst_case(rng) for _ in range(3000 if quick else 40000)]
                 + [gen_subst_case_v(rng) for _ in range(2000 if quick else 30000)])
-    check_again(ctx, rng, 250 if quick else 2500, 60 if quick else 600)
-    check_other_hash_seed(ctx, rng, 240 if quick else 3000)
+    check_again(ctx, rng, 250 if quick else 1500, 60 if quick else 300)
+    check_other_hash_seed(ctx, rng, 240 if quick else 1500)
 
 
 def replay(ctx, doc):
